@@ -90,7 +90,7 @@ func outputTupleDir(v rel.Value, dir string, fs afero.Fs, dryRun bool) error {
 	if err != nil {
 		return err
 	}
-	if _, err := fs.Stat(dir); os.IsNotExist(err) {
+	if _, err := fs.Stat(dir); os.IsNotExist(err) && !dryRun {
 		if err := fs.Mkdir(dir, 0755); err != nil {
 			return err
 		}
@@ -106,6 +106,9 @@ func outputTupleDir(v rel.Value, dir string, fs afero.Fs, dryRun bool) error {
 		name, is := k.(rel.String)
 		if !is {
 			return fmt.Errorf("dir output dict key must be a non-empty string")
+		}
+		if n := path.Clean(name.String()); n == "." || n == ".." || strings.HasPrefix(n, "../") || path.IsAbs(n) {
+			return fmt.Errorf("dir output dict key must name a path inside the output directory, not %q", name.String())
 		}
 		subpath := path.Join(dir, name.String())
 		switch content := v.(type) {
@@ -128,6 +131,8 @@ func outputTupleDir(v rel.Value, dir string, fs afero.Fs, dryRun bool) error {
 			if err := outputFile(content, subpath, fs, dryRun); err != nil {
 				return err
 			}
+		default:
+			return fmt.Errorf("dir output entry must be dict, string or byte array, not %s", rel.ValueTypeAsString(v))
 		}
 	}
 	return nil
@@ -209,6 +214,12 @@ func applyIfExistsConfig(t rel.Tuple, dir string, fs afero.Fs, dryRun bool) (err
 	default:
 		return errInvalidConfig
 	}
+	// The shape of the tuple is checked whether or not the target exists.
+	if conf.String() == ifExistsReplace {
+		if err := checkDirXorFileField(t); err != nil {
+			return err
+		}
+	}
 
 	if _, err := fs.Stat(dir); os.IsNotExist(err) {
 		if conf.String() != ifExistsRemove {
@@ -232,7 +243,8 @@ func applyIfExistsConfig(t rel.Tuple, dir string, fs afero.Fs, dryRun bool) (err
 			return err
 		}
 		if dryRun {
-			return nil
+			// Validate the replacement as it will be applied: onto nothing.
+			return applyFilesFields(t, dir, afero.NewMemMapFs(), dryRun)
 		}
 		if err := fs.RemoveAll(dir); err != nil {
 			return err
